@@ -53,12 +53,41 @@ fn contract_from_bytes_short() {
                 assert!(back[i] == raw[i]);
                 i += 1;
             }
+            std::mem::forget(back);
         }
         Err(e) => {
             assert!(!(well_formed && spec_accepts(raw[0] as u64, raw[1] as usize)));
             std::mem::forget(e);
         }
     }
+}
+
+/// byte round trip from the PeerId side: from_bytes(p.to_bytes()) == p for SHA2-256 and
+/// identity peer ids (digest of <= 3 symbolic bytes)
+#[kani::proof]
+#[kani::unwind(12)]
+fn lemma_to_bytes_from_bytes_round_trip() {
+    let code: u64 = if kani::any() { 0x12 } else { 0x00 };
+    let digest: [u8; 3] = kani::any();
+    let n: usize = kani::any();
+    kani::assume(n <= 3);
+    let mh = Multihash::wrap(code, &digest[..n]).unwrap();
+    let p = match PeerId::from_multihash(mh) {
+        Ok(p) => p,
+        Err(_) => {
+            assert!(false);
+            return;
+        }
+    };
+    let bytes = p.to_bytes();
+    assert!(bytes.len() == 2 + n && bytes[0] == code as u8 && bytes[1] == n as u8);
+    let r = PeerId::from_bytes(&bytes);
+    match &r {
+        Ok(q) => assert!(*q == p),
+        Err(_) => assert!(false),
+    }
+    std::mem::forget(r);
+    std::mem::forget(bytes);
 }
 
 /// Vacuity canary: must FAIL.
